@@ -9,6 +9,7 @@ import (
 	"go/types"
 	"math"
 	"strconv"
+	"strings"
 	"unsafe"
 
 	"golang.org/x/tools/go/ssa"
@@ -196,6 +197,92 @@ func unsafeBuiltin(fr *frame, name string, args []value) (value, bool) {
 		return unsafe.Slice(p, n), true
 	}
 	return nil, false
+}
+
+// ---- the codec boundary (github.com/ugorji/go/codec): reflection/unsafe
+// code that cannot be interpreted.  The four entry points zygo uses dispatch
+// to the harness functions vCodecDecode / vCodecEncode (package under test),
+// which model the handles' documented behaviour on plain data. ----
+
+type codecState struct {
+	data   value // []byte to decode
+	w      value // io.Writer to encode into
+	isJSON bool
+}
+
+func (i *interpreter) harnessFunc(name string) *ssa.Function {
+	for _, pkg := range i.prog.AllPackages() {
+		if f := pkg.Func(name); f != nil && strings.HasSuffix(pkg.Pkg.Path(), "/zygo") {
+			return f
+		}
+	}
+	unsupported("codec model: harness function %s not found", name)
+	return nil
+}
+
+func init() {
+	ext := externals
+	isJSONHandle := func(h value) bool {
+		itf, ok := h.(iface)
+		return ok && itf.t != nil && strings.Contains(itf.t.String(), "JsonHandle")
+	}
+	ext["github.com/ugorji/go/codec.NewDecoderBytes"] = func(fr *frame, args []value) value {
+		var cell value = structure{}
+		p := &cell
+		if fr.i.codecs == nil {
+			fr.i.codecs = map[*value]*codecState{}
+		}
+		fr.i.codecs[p] = &codecState{data: args[0], isJSON: isJSONHandle(args[1])}
+		return p
+	}
+	ext["github.com/ugorji/go/codec.NewEncoder"] = func(fr *frame, args []value) value {
+		var cell value = structure{}
+		p := &cell
+		if fr.i.codecs == nil {
+			fr.i.codecs = map[*value]*codecState{}
+		}
+		fr.i.codecs[p] = &codecState{w: args[0], isJSON: isJSONHandle(args[1])}
+		return p
+	}
+	ext["(*github.com/ugorji/go/codec.Decoder).Decode"] = func(fr *frame, args []value) value {
+		st := fr.i.codecs[args[0].(*value)]
+		if st == nil {
+			unsupported("codec model: Decode on an unknown decoder")
+		}
+		res := call(fr.i, fr, token.NoPos, fr.i.harnessFunc("vCodecDecode"), []value{st.data, st.isJSON}).(tuple)
+		target, ok := args[1].(iface).v.(*value)
+		if !ok {
+			unsupported("codec model: Decode target is not a pointer")
+		}
+		fr.i.setCell(target, res[0])
+		return res[1]
+	}
+	ext["(*github.com/ugorji/go/codec.Encoder).Encode"] = func(fr *frame, args []value) value {
+		st := fr.i.codecs[args[0].(*value)]
+		if st == nil {
+			unsupported("codec model: Encode on an unknown encoder")
+		}
+		v := args[1]
+		// zygo passes &iface: encode what it points to
+		if itf, ok := v.(iface); ok {
+			if p, isPtr := itf.v.(*value); isPtr {
+				if inner, isIface := (*p).(iface); isIface {
+					v = inner
+				}
+			}
+		}
+		res := call(fr.i, fr, token.NoPos, fr.i.harnessFunc("vCodecEncode"), []value{v, st.isJSON}).(tuple)
+		if errv, ok := res[1].(iface); ok && errv.t != nil {
+			return res[1]
+		}
+		w := st.w.(iface)
+		write := fr.i.prog.LookupMethod(w.t, nil, "Write")
+		if write == nil {
+			unsupported("codec model: writer without a Write method")
+		}
+		call(fr.i, fr, token.NoPos, write, []value{w.v, res[0]})
+		return res[1]
+	}
 }
 
 func init() {
